@@ -560,10 +560,32 @@ def run(ctx):
         h = hex_cases(ctx) + trailing_byte_cases(ctx)
         ctx.nontrivial(None, h)
         n += h
+    from .. import coldstart
+    n += coldstart.phase(ctx, overlap_jobs(), 'bytes()==input', kind='cold', offset=5)
     ctx.count('cases', n)
     for s in ([0xE0], [0xE0, 1, 2, 3], [0xF0, 1, 2], [0x90, 60, 64], [0xF1, 1, 2]):
         if ctx.shard == 0:
             ctx.put_sample({'seq': s, 'accepted_by_reference': midi1.accept(s)})
+
+
+def overlap_jobs():
+    """Two threads decode at once - messages of the same types with other values, and the very same strings (steady
+    state, one pre-emption anywhere in the decoder's modules): each gets the message of its own bytes."""
+    from ..coldstart import msg_want
+
+    def dec(t, a, fn='from_bytes'):
+        enc = midi1.encode(t, a)
+        return {'fn': fn, 'arg': ' '.join(f'{b:02X}' for b in enc) if fn == 'from_hex' else enc, 'want': msg_want(t, a)}
+    a1 = [dec('note_on', {'channel': 0, 'note': 60, 'velocity': 64}), dec('control_change', {'channel': 1, 'control': 7, 'value': 100}),
+          dec('program_change', {'channel': 2, 'program': 5}), dec('pitchwheel', {'channel': 3, 'pitch': -1}),
+          dec('sysex', {'data': [1, 2, 3]}), dec('songpos', {'pos': 300}, 'from_hex')]
+    a2 = [dec('note_on', {'channel': 3, 'note': 61, 'velocity': 1}), dec('control_change', {'channel': 7, 'control': 100, 'value': 0}),
+          dec('program_change', {'channel': 5, 'program': 0}), dec('pitchwheel', {'channel': 4, 'pitch': -2}),
+          dec('sysex', {'data': [4]}), dec('songpos', {'pos': 5}, 'from_hex')]
+    mods = ['mido.messages.decode', 'mido.messages.messages', 'mido.messages.specs', 'mido.messages.checks']
+    return [{'modules': mods, 'fresh': False, 'jobs': [a1, a2], 'k': 1},
+            {'modules': mods, 'fresh': False, 'jobs': [a1[:3] + a2[:3], a2[:3] + a1[:3]], 'k': 1},
+            {'modules': mods, 'jobs': [a1[:2], a2], 'k': 1}]
 
 
 def _unrepr(x):
@@ -587,6 +609,9 @@ def replay(ctx, case):
         history_cases(ctx)
     elif case['kind'] in ('hex', 'hex-sep'):
         hex_cases(ctx)
+    elif case['kind'] == 'cold':
+        from .. import coldstart
+        coldstart.replay(ctx, case, 'bytes()==input')
     elif case['kind'] == 'subclass-decoder':
         subclass_decoder_cases(ctx)
     elif case['kind'] == 'backend-delivery':
